@@ -239,7 +239,7 @@ def variants(tier):
 def build_source(v):
     s = SPECS[v['spec']]
     c = dict(v['consts'])
-    lines = ['stl.startup_and_init_all']
+    lines = ['stl.startup_and_init_all', 'again:']
     for ln in s['lines']:
         lines.append(ln.format(L0='L0', **{k: c.get(k) for k in ('P', 'U')}))
     lines += ["stl.output_char 'F'", ';done', 'L0:', "stl.output_char 'E'", ';done', 'done:', "stl.output_char '#'", 'stl.loop']
@@ -263,12 +263,12 @@ def get_bench(v):
 BITS = {'hex': 4, 'bit': 1}
 
 
-def run_one(b, v, values, inp):
+def run_one(b, v, values, inp, mem=None, start=None):
     s = SPECS[v['spec']]
-    m_ = b.fresh()
+    m_ = b.fresh() if mem is None else mem
     for name, (kind, size) in s['vars'].items():
         b.set(m_, name, size, values.get(name, 0), BITS[kind])
-    r = b.run(m_, inp=inp)
+    r = b.run(m_, inp=inp, start=start)
     if s['inputs'] is not None:
         mod = s['model'](dict(values), v['consts'], inp)
     else:
@@ -360,6 +360,11 @@ def run_sweep(v, tier):
                 cl.append('ends by end of input')
             if mod and mod.get('branch') == 0:
                 cl.append('error branch')
+        dflt = {nm: (0x5 if k == 'hex' else 1) for nm, (k, sz) in s['vars'].items()}
+        bad = run_chain(b, v, [(dflt, inp) for inp in sweep_inputs(v, tier)], tier)
+        if bad:
+            return Violation(bad[0], bad[1], cl + ['re-execution chain'])
+        cl.append('re-execution chain')
         return Ok(sorted(set(cl)), nz > 0, evals=count, distinct=nz, sample={'variant': v, 'inputs': count})
     # value sweeps
     names = list(s['vars'])
@@ -384,7 +389,39 @@ def run_sweep(v, tier):
             return Violation('c09:%s:%s' % (v['spec'].split(' n=')[0], bad), {'variant': v, 'values': values, **mod}, cl)
         if max(values.values()) >= 10:
             nz += 1
+    bad = run_chain(b, v, [(values, b'') for values in tuples], tier)
+    if bad:
+        return Violation(bad[0], bad[1], cl + ['re-execution chain'])
+    cl.append('re-execution chain')
     return Ok(cl, nz > 0, evals=count, distinct=nz, sample={'variant': v, 'values': count})
+
+
+def run_chain(b, v, items, tier):
+    """the same call site executed again and again on ONE memory (a macro used in a loop): a fixed pseudo-random walk
+    over the sweep's (values, input) items.  An execution that ended the program (end of input) is not continued."""
+    import random
+    import zlib
+    s = SPECS[v['spec']]
+    items = list(items)
+    random.Random(zlib.crc32(repr((v['spec'], sorted(v['consts'].items()), v['w'])).encode())).shuffle(items)
+    mem = b.fresh()
+    prev = None
+    first = True
+    done = 0
+    for values, inp in items:
+        if done >= (150 if tier == 'quick' else 1500):
+            break
+        mod = s['model'](dict(values), v['consts'], inp) if s['inputs'] is not None else s['model'](dict(values), v['consts'])
+        if mod is None or mod.get('eof'):
+            continue
+        bad, mod = run_one(b, v, values, inp, mem=mem, start=None if first else 'again')
+        first = False
+        done += 1
+        if bad and bad != 'skip':
+            return ('c09:%s:re-execution:%s' % (v['spec'].split(' n=')[0], bad),
+                    {'variant': v, 'execution_index': done - 1, 'previous': prev, 'values': values, 'input': list(inp)[:30], **(mod or {})})
+        prev = {'values': values, 'input': list(inp)[:30]}
+    return None
 
 
 def enumerations(tier):
